@@ -403,6 +403,64 @@ func run(c *core.Ctx) int {
 	st := &spawnStats{}
 	startSeconds := map[int64]bool{}
 	planted := 0
+
+	// ---- real-sleep monitor: one probe process per variant, all at once (on a
+	// broken tree the whole phase costs one watchdog period) ----
+	{
+		probeRes := make([][]core.CaseResult, len(variants))
+		var wg sync.WaitGroup
+		for vi, v := range variants {
+			wg.Add(1)
+			go func(vi int, v *variant) {
+				defer wg.Done()
+				probeRes[vi] = spawn(c, v, []json.RawMessage{core.J(scriptCase{ID: -1 - vi, Probe: "sleep"})}, st)
+			}(vi, v)
+		}
+		wg.Wait()
+		for vi, v := range variants {
+			r := probeRes[vi][0]
+			var so scriptOut
+			if r.Crash != nil && r.Crash.Kind != "race" {
+				if r.Crash.Kind == "timeout" {
+					c.Inconclusive("real-sleep-probe:watchdog")
+				} else {
+					c.Violate("crash:real-sleep-probe:"+r.Crash.Kind+":"+firstWords(r.Crash.Detail, 6), r.Crash.Detail, map[string]any{"variant": v.describe(), "crash": r.Crash})
+				}
+				continue
+			}
+			if r.Out == nil || json.Unmarshal(r.Out, &so) != nil {
+				c.Inconclusive("real-sleep-probe:bad-child-output")
+				continue
+			}
+			c.Count("real_sleep_probe_processes", 1)
+			c.Count("real_sleep_probes", int64(so.Traces))
+			if n, ok := so.Probe["returned_at_once"].(float64); ok {
+				c.Count("real_sleep_probes_returned_at_once", int64(n))
+			}
+			if m, ok := so.Probe["per_flavour"].(map[string]any); ok {
+				for k, n := range m {
+					c.Distinct("probe_ctx_flavours", k)
+					if f, ok := n.(float64); ok {
+						c.Count("real_sleep_probes_ctx_"+k, int64(f))
+					}
+				}
+			}
+			if m, ok := so.Probe["per_shape"].(map[string]any); ok {
+				for k := range m {
+					c.Distinct("probe_shapes", k)
+				}
+			}
+			c.Extra(fmt.Sprintf("real_sleep_probe_variant_%d", vi), so.Probe)
+			for _, k := range so.Inconcl {
+				c.Inconclusive(k)
+			}
+			for _, f := range so.Findings {
+				c.Violate(f.Sig, f.Detail, map[string]any{"variant": v.describe(), "finding": f,
+					"replay": "instantiate the WASI proxy guest with wazero.NewModuleConfig(), call the exported poll_oneoff with the subscription bytes of finding.got.call under the named context flavour: it must return at once"})
+			}
+		}
+	}
+
 	for vi, v := range variants {
 		if vi > 0 {
 			time.Sleep(1100 * time.Millisecond) // different start second; the value itself is never used
@@ -417,8 +475,7 @@ func run(c *core.Ctx) int {
 			j := pr.Intn(i + 1)
 			order[i], order[j] = order[j], order[i]
 		}
-		cases := make([]json.RawMessage, 0, nScripts+1)
-		cases = append(cases, core.J(scriptCase{ID: -1 - vi, Probe: "sleep"}))
+		cases := make([]json.RawMessage, 0, nScripts)
 		for _, si := range order {
 			sc := scripts[si]
 			sc.Stats = vi == 0
@@ -459,12 +516,7 @@ func run(c *core.Ctx) int {
 					c.Extra(fmt.Sprintf("host_seen_by_variant_%d", vi), so.Host)
 				}
 			}
-			if so.ID < 0 { // sleep probe
-				c.Count("sleep_probes", int64(so.Traces))
-				c.Extra(fmt.Sprintf("sleep_probe_variant_%d", vi), so.Probe)
-				for _, f := range so.Findings {
-					c.Violate(f.Sig, f.Detail, map[string]any{"variant": v.describe(), "finding": f})
-				}
+			if so.ID < 0 {
 				continue
 			}
 			if so.ID >= nScripts {
@@ -508,6 +560,9 @@ func run(c *core.Ctx) int {
 			c.Count("traces", int64(so.Traces))
 			c.Count("scan_bytes", so.ScanBytes)
 			c.Distinct("exec_plans", so.Plan)
+			for k, n := range so.Ctx {
+				c.Count("traces_ctx_"+k, int64(n))
+			}
 			c.Count("calls_slower_than_grace_period_but_returned_during_control", int64(so.SlowCalls))
 			if so.Needles < minNeedles {
 				minNeedles = so.Needles
@@ -600,8 +655,16 @@ func run(c *core.Ctx) int {
 			c.Inconclusive("assert-never-reached:" + a)
 		}
 	}
-	if c.Counter("sleep_probes") == 0 {
-		c.Inconclusive("sleep-probe-never-ran")
+	if c.Counter("real_sleep_probes") == 0 {
+		c.Inconclusive("real-sleep-probe-never-ran")
+	}
+	if c.DistinctN("probe_ctx_flavours") < len(flavours) || c.DistinctN("probe_shapes") < len(probeShapes) {
+		c.Inconclusive("real-sleep-probe-flavour-or-shape-missing")
+	}
+	for _, f := range flavours {
+		if c.Counter("traces_ctx_"+f.name) == 0 {
+			c.Inconclusive("context-flavour-without-trace:" + f.name)
+		}
 	}
 	if len(startSeconds) < 2 {
 		c.Inconclusive("processes-not-started-at-different-seconds")
@@ -630,6 +693,8 @@ func run(c *core.Ctx) int {
 		"ranges written by random_get only for needles >= 8 bytes. Time scan (host time now, +-1 day): only on what clock_*, *_filestat_get and random_get wrote; "+
 		"u64 LE at every byte offset in s/ms/us/ns, plus u32 LE seconds at 4-aligned offsets for clock/filestat. A hit in random output is a violation only when >= 3 processes report it "+
 		"for the same call, offset and scaling and (scaling is seconds or the script's trace also differs between processes); otherwise it is dismissed as chance and counted.")
+	c.Extra("context_rule", "interpreter/A (reference trace) is called under context.Background(); the other five instances of a script in a process are called under value-only, WithCancel (never cancelled), WithTimeout(1h), WithDeadline(+50y) and value(WithCancel) contexts, rotated with variant and script; all six traces must be byte-identical. "+
+		"Real-sleep probes: engines x 6 context flavours x 9 shapes (poll_oneoff clock relative/absolute, realtime/monotonic, with fd_write / fd_read subscriptions, two clocks; sched_yield) x timeouts of 1 hour and 1 year; verdict = subject not returned although its control (timeout 0) returned and >= 1000 further control calls completed in the process during a >= 30 s watchdog.")
 	c.Assume("scripts have at most 200 calls, so the fake monotonic clock (1ms per reading) stays far below the current Unix time in any scaling")
 	c.Assume("trace equality covers what the guest can observe: results, memory; the host-side error text of a recovered host-function panic is reduced to its first line with numbers masked")
 	return c.Finish(evals, int64(c.DistinctN("traces_sha")),
